@@ -15,6 +15,7 @@ TNext ==
   \/ Is("InitDone") /\ InitDone
   \/ Is("U_NumWorkers") /\ UNumWorkers(A(1))
   \/ Is("U_WorkerNum") /\ UWorkerNum(A(1))
+  \/ Is("U_KeysExhausted") /\ UKeysExhausted(A(1), A(2))
   \/ Is("FiniBegin") /\ FiniBegin
   \/ Is("WorkerExit") /\ WorkerExit(A(1))
   \/ Is("FiniDone") /\ FiniDone
